@@ -34,7 +34,7 @@ Put(fn, k, v) == [x \in (DOMAIN fn) \cup {k} |-> IF x = k THEN v ELSE fn[x]]
 S0 == [phase |-> "idle", kind |-> "none", named |-> {}, mem |-> Empty, orig |-> Empty, split |-> Empty,
        eff |-> Empty, live |-> {}, pend |-> {}, twr |-> {}, orphans |-> {}, rwp |-> {}, dirty |-> {},
        cnt |-> Empty, ver |-> <<>>, ins |-> [f |-> "none"], touched |-> FALSE, unwinding |-> FALSE,
-       crashed |-> FALSE, lives |-> 0, ambient |-> FALSE, faddr |-> Empty, tad |-> Empty]
+       crashed |-> FALSE, lives |-> 0, ambient |-> FALSE, faddr |-> Empty, tad |-> Empty, ncaught |-> 0]
 
 TraceInit == sc \in 1..NScen /\ l = First(sc) /\ s = S0
 
@@ -162,14 +162,19 @@ InstallEndAbandoned ==
 
 \* an installation that panicked: a refusal (signature, bool gate, null) precedes every
 \* modification; an allocation failure leaves nothing mapped and the entry untouched
+\* the caller catches the panic of this installation (catch_unwind around the installing call) and goes on
+CaughtHere == "caught" \in DOMAIN Ev /\ Ev.caught
 InstallEndPanic ==
   /\ Step("InstallEnd") /\ s.phase = "install" /\ Ev.outcome = "panic"
   /\ Req("C05", Ev.cls \in {"sig-mismatch", "bool-gate", "null"} => ~s.touched)
   /\ Req("C09", Ev.cls \in {"sig-mismatch", "bool-gate", "null"} => ~s.touched)
   /\ Req("C11", Ev.cls = "alloc-exhausted" => (s.pend = {} /\ s.mem[s.ins.f] = s.orig[s.ins.f]))
   /\ Req("C05", Ev.cls = "alloc-exhausted" => s.pend = {})
+  \* the injector is alive in its owner's scope whether or not the owner catches this panic: the guard is held
+  /\ Req("C04", Ev.lock \in {1, 255})
   \* a mapping orphaned by the failed installation is never executed: its unflushed bytes do not matter
-  /\ s' = [s EXCEPT !.phase = "user", !.unwinding = TRUE, !.orphans = @ \cup s.pend, !.pend = {},
+  /\ s' = [s EXCEPT !.phase = "user", !.unwinding = IF CaughtHere THEN @ ELSE TRUE,
+                    !.ncaught = IF CaughtHere THEN @ + 1 ELSE @, !.orphans = @ \cup s.pend, !.pend = {},
                     !.dirty = {d \in @ : d[1] \notin s.pend},
                     !.ver = IF s.ins.site # 0 /\ Ev.verifier_kept
                             THEN Append(@, [site |-> s.ins.site, n |-> s.ins.n]) ELSE @,
@@ -232,7 +237,8 @@ DropEnd ==
   /\ Req("C12", s.live = {})
   /\ Req("C17", s.dirty = {})
   /\ Req("C04", Ev.lock # 1)
-  /\ Req("C05", Ev.lock # 1 /\ Ev.panics <= (IF s.ambient THEN 2 ELSE 1))
+  \* "at most one panic": besides the panics of installations that the caller caught and survived
+  /\ Req("C05", Ev.lock # 1 /\ Ev.panics <= (IF s.ambient THEN 2 ELSE 1) + s.ncaught)
   /\ Req("C05", s.unwinding => Ev.outcome = "ok")        \* nothing is raised while unwinding
   \* unwinding restores every faked function and gives every trampoline back
   /\ Req("C05", s.unwinding => ((\A f \in DOMAIN s.mem : s.mem[f] = s.orig[f]) /\ s.live = {}))
@@ -242,7 +248,7 @@ DropEnd ==
   \* the verdict is part of the critical section: the guard is still held when the verifier speaks
   /\ Req("C06", (Ev.outcome = "panic" /\ Ev.cls = "count") => Ev.lock_at_verify \in {1, 255})
   /\ Req("C04", (Ev.outcome = "panic" /\ Ev.cls = "count") => Ev.lock_at_verify \in {1, 255})
-  /\ s' = [s EXCEPT !.phase = "idle", !.kind = "none", !.lives = @ + 1, !.live = {}, !.dirty = {},
+  /\ s' = [s EXCEPT !.phase = "idle", !.kind = "none", !.lives = @ + 1, !.live = {}, !.dirty = {}, !.ncaught = 0,
                     !.eff = [f \in DOMAIN s.eff |-> <<>>]]
 
 Diff ==
